@@ -1,6 +1,7 @@
 package icc
 
 import (
+	"bytes"
 	"fmt"
 	"github.com/mandykoh/prism/meta/binary"
 	"io"
@@ -241,14 +242,23 @@ func (pr *ProfileReader) readTagTable(tagTable *TagTable) error {
 	}
 
 	tagDataOffset := tagTableOffset + 4 + (tagCount * 12)
-	tagData := make([]byte, endOfTagData-tagDataOffset)
-	bytesRead, err := io.ReadFull(pr.reader, tagData)
+
+	// The tag data follows the table. Its extent comes from the declared
+	// offsets and sizes, so it is neither allowed to precede the table's end
+	// nor trusted for an up-front allocation.
+	tagDataLength := uint32(0)
+	if endOfTagData > tagDataOffset {
+		tagDataLength = endOfTagData - tagDataOffset
+	}
+	tagDataBuffer := bytes.Buffer{}
+	bytesRead, err := io.CopyN(&tagDataBuffer, pr.reader, int64(tagDataLength))
 	if err != nil {
-		if err == io.EOF || err == io.ErrUnexpectedEOF {
-			return fmt.Errorf("expected %d bytes of tag data but only got %d", len(tagData), bytesRead)
+		if err == io.EOF {
+			return fmt.Errorf("expected %d bytes of tag data but only got %d", tagDataLength, bytesRead)
 		}
 		return err
 	}
+	tagData := tagDataBuffer.Bytes()
 
 	for sig, entry := range tagIndex {
 		startOffset := entry.offset - tagDataOffset
